@@ -459,6 +459,14 @@ class PVLParser(object):
                     "Expecting a Begin-Aggegation-Statement, but "
                     f"found: {begin}"
                 )
+            try:
+                # A grammar may list a keyword without it starting
+                # a Group or an Object (BEGIN_GROUP in the ISISGrammar):
+                # find out before the statement is consumed.
+                self.aggregation_cls(begin)
+            except ValueError:
+                tokens.send(begin)
+                raise
         except StopIteration:
             raise ValueError(
                 "Ran out of tokens before starting to parse "
